@@ -1,3 +1,6 @@
+//@@ implshape src/parsing/compressed_reader.rs impl~Read~for~CompressedReader read
+//@@ implshape src/parsing/response.rs impl~Read~for~Response read
+//@@ implshape src/parsing/response_reader.rs impl~Read~for~ResponseReader read
 // ===================== extracted code: compressed_reader.rs, response_reader.rs, response.rs =====================
 //@@ item src/parsing/compressed_reader.rs enum CompressedReader vis=pub
 //@@ end
